@@ -292,6 +292,7 @@ type TLG struct {
 	fieldT      map[*types.Var]string // integer field -> source description
 	fieldElemT  map[*types.Var]string
 	changed     bool
+	warm        bool
 	round       int
 
 	collect bool
@@ -317,6 +318,20 @@ func (c *Ctx) TLG() *TLG {
 		}
 		t.fns = append(t.fns, f)
 	}
+	// warm-up: what callees establish about their parameters (checking helpers) is needed by the
+	// first round of the main fixpoint already - the parameter summaries only ever grow, so an
+	// argument that is seen unchecked once (because the checker's summary did not exist yet) would
+	// stay unchecked for good. Two passes compute the postcondition summaries (replacing, not
+	// joining); everything else they produced is thrown away.
+	t.warm = true
+	for i := 0; i < 2; i++ {
+		for _, f := range t.fns {
+			t.analyze(f)
+		}
+	}
+	t.warm = false
+	t.ret, t.retOK, t.paramT = map[*ssa.Function][]AV{}, map[*ssa.Function][]AV{}, map[*ssa.Function][]AV{}
+	t.fieldT, t.fieldElemT, t.Sources = map[*types.Var]string{}, map[*types.Var]string{}, map[string]int{}
 	// global fixpoint over summaries
 	for t.round = 1; t.round <= 12; t.round++ {
 		t.changed = false
@@ -620,7 +635,7 @@ func (t *TLG) analyze(fn *ssa.Function) {
 		}
 		// (symbolic bounds are kept: they are translated into the caller's names at the call site)
 		old, ok := m[fn]
-		if !ok || len(old) != len(cur) {
+		if !ok || len(old) != len(cur) || t.warm {
 			m[fn] = cur
 			t.changed = true
 			return
